@@ -300,7 +300,9 @@ def run(rep: Report, tier: str) -> None:
     must8 = [n for n in g8.nodes if any(isinstance(c, ast.Call) and (getattr(c.func, "id", "") or getattr(c.func, "attr", "")) == "set_decimal_config" for c in g8.calls_at(n))]
     rep.instance("R30.8", "configure/set_decimal_config-on-every-path", nontrivial=True, sample={"call_sites": len(must8)})
     p8 = g8.path_avoiding(g8.entry, lambda n: n is g8.exit, lambda n: n in must8, follow_exc=False)
-    if not must8 or p8 is not None:
+    if not must8:
+        raise AnalysisError("configure_duckdb_connection no longer calls set_decimal_config() anywhere (anchor changed: where are the settings read and validated now?)")
+    if p8 is not None:
         from sa.cfg import describe_path as _dp8
         rep.add(Finding("R30.8", "R30.8/configure/set_decimal_config-on-every-path", fcc.module.rel, fcc.node.lineno, fcc.qualname,
                         "configure_duckdb_connection can configure a connection without calling set_decimal_config(): the settings of this run are then neither read nor validated - an "
